@@ -650,6 +650,8 @@ def run(ctx):
     # ---- 5. defects
     report_defects(ctx)
 
+    import extra_oracles as _xo
+    _xo.module_instance_independence(ctx, "C08")
     ctx.notes["rule"] = (
         "programs: linear_family.enumerated_family() (5 layouts x 2 normalisations x bias x shared, rotating channels and optimisation; "
         "degenerate shapes; instruction subsets / permutations / duplicates; bias masks) + VERIF_SEED-dependent random configurations; "
